@@ -87,7 +87,7 @@ CHECKS["C20"] = dict(
     category="exploration",
     text="Safety form of the liveness property over generated states: with small stall / mandatory thresholds and tight compaction limits, whenever the store reports that ingest must stall, compaction steps must lower level 0 below the threshold before the selector goes idle (an idle selector while stalled with nothing in progress is the violation; the step bound is NUM_LEVELS x (live files + 1) + 16 because trivial moves are preferred). 'Eventually' itself is out of reach of this technique.",
     design_ref="DESIGN.md §5 C20",
-    note="Single-threaded step driving; thread-level lost wake-ups are not decided here. Known finding R-P (minimal L0 compaction exceeds max_compaction_files) is excluded by predicate and counted.",
+    note="Single-threaded step driving; thread-level lost wake-ups are not decided here.",
     technique="stateful property-based testing with a bounded-relief invariant over generated configurations",
 )
 
